@@ -90,6 +90,18 @@ func TestGocvReplayValidate(t *testing.T) {
 						}
 						vt := c.resolveValueType(resolver)
 						condOK := (op != "~" || !gocvIsNumOrDate(vt)) && (!(op == ">" || op == "<" || op == ">=" || op == "<=") || gocvIsNumOrDate(vt))
+						// the evaluator drops the errors of ValueAsNumber / ValueAsDate: unless this is an existence check the value must parse
+						if existence := value == "" && (op == "=" || op == "!="); !existence {
+							if vt == assets.FieldTypeNumber {
+								if _, err := c.ValueAsNumber(); err != nil {
+									condOK = false
+								}
+							} else if vt == assets.FieldTypeDatetime {
+								if _, err := c.ValueAsDate(env); err != nil {
+									condOK = false
+								}
+							}
+						}
 						var val any = "abcd"
 						if vt == assets.FieldTypeNumber {
 							val = decimal.RequireFromString("10")
